@@ -131,6 +131,8 @@ pub struct ExecRec {
     pub msg: String,
     pub funds: Vec<Coin>,
     pub attrs: Vec<Attribute>,
+    /// the contract's own handler returned Ok (its messages may still have failed afterwards)
+    pub handler_ok: bool,
 }
 
 #[derive(Clone, Debug, Default, PartialEq)]
@@ -588,6 +590,7 @@ impl World {
             msg: String::from_utf8_lossy(msg.as_slice()).to_string(),
             funds: funds.to_vec(),
             attrs: vec![],
+            handler_ok: false,
         });
         if !funds.is_empty() {
             // wasmd moves attached funds with the bank keeper before the callee runs
@@ -648,6 +651,7 @@ impl World {
         };
         self.stores.insert(contract.to_string(), st);
         tr.execs[rec_idx].attrs = resp.attributes.clone();
+        tr.execs[rec_idx].handler_ok = true;
         for sm in resp.messages {
             if sm.reply_on != ReplyOn::Never {
                 *herr = true;
